@@ -521,7 +521,7 @@ def judge_vjp(ctx, impl, o, arrays, g, dtype, worst=None):
     # reference for "the derivative of the function the forward pass computed" and finite differences decide alone
     d_v = None
     if tout is not None:
-        d_v = disagree(np, out, tout, *((1e-9, 1e-12) if dtype == np.float64 else (1e-4, 1e-5)))
+        d_v = disagree(np, out, tout, *((1e-6, 1e-9) if dtype == np.float64 else (1e-3, 1e-4)))   # gross semantic differences only (a Python-number operand is wrapped as float32 by the library: ~1e-8 relative)
         if d_v:
             tg = None
     for k, a in enumerate(arrays):
@@ -566,13 +566,22 @@ def c09_ops():
     mp.mp.dps = 60
     al, sc = mp.mpf(SELU_ALPHA), mp.mpf(SELU_SCALE)
     sig = lambda x: 1 / (1 + mp.exp(-x))
+    dsig = lambda x, y: sig(x) * (1 - sig(x))
+    selu_v = lambda x, y: sc * x if x > 0 else sc * al * (mp.exp(x) - 1)
+    selu_d = lambda x, y: sc if x > 0 else sc * al * mp.exp(x)
+    bce_v = lambda x, y: mp.log(1 + mp.exp(x)) - x * y
+    bce_d = lambda x, y: sig(x) - y
+    T3 = [0.0, 1.0, 0.25]
     return [
-        {"name": "sigmoid", "f": lambda F, x, y: F.sigmoid(x), "val": lambda x, y: sig(x), "der": lambda x, y: sig(x) * (1 - sig(x)), "targets": [None]},
-        {"name": "tanh", "f": lambda F, x, y: F.tanh(x), "val": lambda x, y: mp.tanh(x), "der": lambda x, y: 1 - mp.tanh(x) ** 2, "targets": [None]},
-        {"name": "selu", "f": lambda F, x, y: F.selu(x), "val": lambda x, y: sc * x if x > 0 else sc * al * (mp.exp(x) - 1),
-         "der": lambda x, y: sc if x > 0 else sc * al * mp.exp(x), "targets": [None]},
-        {"name": "binary_cross_entropy_with_logits", "f": lambda F, x, y: F.binary_cross_entropy_with_logits(x, y),
-         "val": lambda x, y: mp.log(1 + mp.exp(x)) - x * y, "der": lambda x, y: sig(x) - y, "targets": [0.0, 1.0, 0.25]},
+        {"name": "sigmoid", "f": lambda I, x, y: I.NF.sigmoid(x), "val": lambda x, y: sig(x), "der": dsig, "targets": [None]},
+        {"name": "tanh", "f": lambda I, x, y: I.NF.tanh(x), "val": lambda x, y: mp.tanh(x), "der": lambda x, y: 1 - mp.tanh(x) ** 2, "targets": [None]},
+        {"name": "selu", "f": lambda I, x, y: I.NF.selu(x), "val": selu_v, "der": selu_d, "targets": [None]},
+        {"name": "binary_cross_entropy_with_logits", "f": lambda I, x, y: I.NF.binary_cross_entropy_with_logits(x, y), "val": bce_v, "der": bce_d, "targets": T3},
+        # the layer / loss modules built on them
+        {"name": "nn.Sigmoid", "f": lambda I, x, y: I.nn.Sigmoid()(x), "val": lambda x, y: sig(x), "der": dsig, "targets": [None]},
+        {"name": "nn.Tanh", "f": lambda I, x, y: I.nn.Tanh()(x), "val": lambda x, y: mp.tanh(x), "der": lambda x, y: 1 - mp.tanh(x) ** 2, "targets": [None]},
+        {"name": "nn.SELU", "f": lambda I, x, y: I.nn.SELU()(x), "val": selu_v, "der": selu_d, "targets": [None]},
+        {"name": "nn.BCEWithLogitsLoss(reduction='none')", "f": lambda I, x, y: I.nn.BCEWithLogitsLoss(reduction="none")(x, y), "val": bce_v, "der": bce_d, "targets": [1.0, 0.25]},
     ]
 
 
@@ -581,7 +590,7 @@ def c09_eval(impl, o, xs, y, dtype, g):
     x = sg.Tensor(np.array(xs, dtype=dtype), requires_grad=True)
     t = None if y is None else sg.Tensor(np.full(len(xs), y, dtype=dtype))
     with np.errstate(all="ignore"):
-        out = o["f"](impl.NF, x, t)
+        out = o["f"](impl, x, t)
         out.backward(sg.Tensor(np.array(g, dtype=dtype)))
     return np.asarray(out.data, dtype=np.float64), np.asarray(x._grad, dtype=np.float64), out.data.dtype, x._grad.dtype
 
@@ -600,7 +609,7 @@ def oracle_c09(ctx, extra_modules=True):
                 xr = [float(np.array(v, dtype=dtype)) for v in xs]          # the reals actually fed in
                 g = [1.0 if i % 2 == 0 else -1.5 for i in range(len(xr))]
                 key = "%s/%s%s" % (o["name"], np.dtype(dtype).name, "" if y is None else "/y=%s" % y)
-                site = "nn.functional.%s" % o["name"]
+                site = ("nn.functional.%s" % o["name"]) if not o["name"].startswith("nn.") else o["name"]
                 try:
                     val, grad, odt, gdt = c09_eval(impl, o, xr, y, dtype, g)
                 except Exception as ex:
